@@ -106,6 +106,7 @@ EXPECTED_PROBES = [
     "probe.waiter_released_by_close_all", "probe.release_of_closed_connection",
     "probe.limit_raised_under_backlog", "probe.limit_lowered",
     "probe.weighted_request", "probe.weighted_request_in_service", "probe.request_discarded_by_worker",
+    "probe.renamed_after_construction",
 ]
 SHRINK_SKIP = ("family", "klass", "kind")  # the shrinker may drop whole instances from "subs"
 SHRINK_BUDGET_S = {"quick": 20.0, "thorough": 60.0}
@@ -573,6 +574,8 @@ def gen(rng, tier):
         sc = {"family": "multi", "klass": f"multi-{mode}/{first['family']}", "subs": subs}
     else:
         sc = g(rng)
+        if rng.random() < 0.15:
+            sc["rename"] = True
     sc["seed"] = rng.getrandbits(32)
     return sc
 
@@ -627,7 +630,9 @@ def _run(sc):
     seed_globals(sc.get("seed", 0))
     fams, ents, workers = [], [], []
     for k, sub in enumerate(subs):
-        f, e, w = _build_instance(sub, f"@{k}" if multi else "")
+        # entities are also renamed after construction in a share of single-instance runs (a legal configuration: the
+        # library itself renames cloned entities); nothing may key on the name an entity had in __init__
+        f, e, w = _build_instance(sub, f"@{k}" if multi else ("-renamed" if sc.get("rename") else ""))
         fams.append(f)
         ents += list(e)
         workers += list(w)
@@ -694,6 +699,8 @@ def _run(sc):
     max_blocked = max(f.max_blocked for f in fams)
     if max_blocked >= 4:
         counters[f"probe.{fam_name}.queue_depth_ge_4"] = 1
+    if sc.get("rename"):
+        counters["probe.renamed_after_construction"] = 1
     if multi:
         counters[f"probe.multi.{fam_name}"] = 1
         if sum(1 for f in fams if f.counters.get("blocked", 0) or f.nlog >= 4) >= 2:
